@@ -750,15 +750,8 @@ func (c *Compiler) compileSlice(node *ast.Slice) error {
 	if err := c.compile(node.Left()); err != nil {
 		return err
 	}
-	to := node.ToIndex()
-	if to == nil {
-		c.emit(op.Copy, 0)
-		c.emit(op.Length)
-	} else {
-		if err := c.compile(to); err != nil {
-			return err
-		}
-	}
+	// Evaluate the bounds left to right: from, then to. The Slice instruction
+	// expects them the other way round, hence the final swap.
 	from := node.FromIndex()
 	if from == nil {
 		c.emit(op.LoadConst, c.constant(int64(0)))
@@ -767,6 +760,16 @@ func (c *Compiler) compileSlice(node *ast.Slice) error {
 			return err
 		}
 	}
+	to := node.ToIndex()
+	if to == nil {
+		c.emit(op.Copy, 1)
+		c.emit(op.Length)
+	} else {
+		if err := c.compile(to); err != nil {
+			return err
+		}
+	}
+	c.emit(op.Swap, 1)
 	c.emit(op.Slice)
 	return nil
 }
@@ -944,23 +947,27 @@ func (c *Compiler) compileConst(node *ast.Const) error {
 }
 
 func (c *Compiler) compileIn(node *ast.In) error {
-	if err := c.compile(node.Right()); err != nil {
-		return err
-	}
+	// Evaluate the operands left to right; ContainsOp expects the container
+	// below the item, hence the swap.
 	if err := c.compile(node.Left()); err != nil {
 		return err
 	}
+	if err := c.compile(node.Right()); err != nil {
+		return err
+	}
+	c.emit(op.Swap, 1)
 	c.emit(op.ContainsOp, 0)
 	return nil
 }
 
 func (c *Compiler) compileNotIn(node *ast.NotIn) error {
-	if err := c.compile(node.Right()); err != nil {
-		return err
-	}
 	if err := c.compile(node.Left()); err != nil {
 		return err
 	}
+	if err := c.compile(node.Right()); err != nil {
+		return err
+	}
+	c.emit(op.Swap, 1)
 	c.emit(op.ContainsOp, 0)
 	c.emit(op.UnaryNot)
 	return nil
